@@ -8,18 +8,20 @@
 (* One state per (formula, signals).                                        *)
 (***************************************************************************)
 EXTENDS DenseOff, SequencesExt, TLC
-CONSTANTS Formulas, MaxT, MaxN, Vals, SS, T0
-VARIABLES phi, W, ready
-vars == <<phi, W, ready>>
+CONSTANTS Formulas, MaxT, MaxN, Vals, SS, T0,
+          Sems, IOs      \* semantics and IO classes explored (interface-aware variants, property C06)
+VARIABLES phi, W, ready, md
+vars == <<phi, W, ready, md>>
 
 SigOf(S, e, vs) == LET ts == <<0>> \o SetToSortSeq(S, <) \o <<e>> IN [i \in 1..Len(ts) |-> <<T0 + ts[i], vs[i]>>]
 Signals(e) == UNION {{SigOf(S, e, vs) : vs \in [1..(Cardinality(S) + 2) -> Vals]} :
                      S \in {S \in SUBSET (1..(e - 1)) : Cardinality(S) <= MaxN - 2}}
 \* (the signals are chosen by a transition rather than in Init so that TLC's workers share the enumeration)
 Init == phi \in Formulas /\ W = <<>> /\ ready = FALSE
+        /\ \E sm \in Sems : \E io \in [VarsOf(phi) -> IOs] : md = [sem |-> sm, io |-> io]
 Next == /\ ~ready
         /\ \E e \in 1..MaxT : W' \in [VarsOf(phi) -> Signals(e)]
-        /\ ready' = TRUE /\ UNCHANGED phi
+        /\ ready' = TRUE /\ UNCHANGED <<phi, md>>
 Spec == Init /\ [][Next]_vars
-Denotes == ready => OffDenotes(phi, W, VarsOf(phi), SS)
+Denotes == ready => OffDenotesM(phi, W, VarsOf(phi), SS, md)
 =============================================================================
